@@ -139,6 +139,12 @@ func (vm *Manager) UpdateAll(cfgs []v1.VisitorConfigurer) {
 	}
 
 	xl := xlog.FromContextSafe(vm.ctx)
+	// If a name is listed more than once, the first entry is the one that gets started below, so it is
+	// also the one a running visitor is compared with. (Comparing with the last entry restarted the
+	// visitor on every reload of an unchanged configuration.)
+	cfgs = lo.UniqBy(cfgs, func(c v1.VisitorConfigurer) string {
+		return c.GetBaseConfig().Name
+	})
 	cfgsMap := lo.KeyBy(cfgs, func(c v1.VisitorConfigurer) string {
 		return c.GetBaseConfig().Name
 	})
